@@ -1,4 +1,4 @@
-import ExprModel.Proofs.WalkThm
+import ExprModel.Proofs.WalkPath
 import ExprModel.Gen.AstShape
 import ExprModel.Gen.Walk
 /-
@@ -182,12 +182,57 @@ theorem replacement_at_position (g : Node → Node) (p : List Nat) (n : Node) (h
       nodeAt p r = (nodeAt p n).map (bottomUp g) :=
   ⟨bottomUp g n, replacement_effective_stateless g f n hf, bottomUp_at g p n h⟩
 
+/-- **A replacement at any position** (stateful visitor).  For every tree `n`, every position `p` (path
+    of child ordinals) and every rewriting `g`: the visitor that locates position `p` by counting its
+    `Enter`/`Exit` calls and rewrites there on `Exit` returns `n` with exactly the sub-tree at `p`
+    rewritten — whatever kinds of nodes and slots lie on the way. -/
+theorem replacement_at_any_position (g : Node → Node) (p : List Nat) (f : Nat) (n : Node) (hf : n.height ≤ f) :
+    walk Gen.walkTargets (Visitor.atPath (0 :: p) g) f n ⟨[], 0⟩ = some (rewriteAt g p n, ⟨[], 1⟩) := by
+  rw [walk_eq_walkU]
+  exact walkU_atPath_root g p f n hf
+
+/-- … and `rewriteAt` does put the rewritten sub-tree at `p` -/
+theorem rewriteAt_at (g : Node → Node) : ∀ (p : List Nat) (n c : Node), nodeAt p n = some c →
+    nodeAt p (rewriteAt g p n) = some (g c) := by
+  intro p
+  induction p with
+  | nil => intro n c h; simp only [nodeAt, Option.some.injEq] at h; subst h; rfl
+  | cons i p ih =>
+    intro n c h
+    simp only [nodeAt] at h
+    cases hi : n.children[i]? with
+    | none => simp [hi] at h
+    | some d =>
+      simp only [hi] at h
+      simp only [rewriteAt, nodeAt]
+      rw [children_withChildren _ _ (by simp)]
+      simp only [List.getElem?_modify_eq, hi]
+      exact ih d c h
+
 /-- `ast.Patch`: the new node takes type and location of the node it replaces and is otherwise itself -/
 theorem patch_copies_meta (old new : Node) :
     (astPatch old new).getMeta = old.getMeta ∧ (astPatch old new).nk = new.nk ∧
     (astPatch old new).children = new.children ∧ (astPatch old new).withMeta new.getMeta = new ∧
     Gen.astPatchBody = ["newNode.SetType((*node).Type())", "newNode.SetLocation((*node).Location())", "*node = newNode"] := by
   refine ⟨?_, ?_, ?_, ?_, rfl⟩ <;> cases new <;> rfl
+
+/-! ### completeness of the table is necessary -/
+
+/-- the walker's table as it stood with the defect: `SliceNode.Node` is not walked -/
+def sliceNodeDropped : Table := fun k =>
+  if k = .SliceNode then [⟨.fFrom, .optional⟩, ⟨.fTo, .optional⟩] else refSlots k
+
+def enteredNames (evs : List Event) : List String :=
+  evs.filterMap fun e => match e with
+    | .enter (.ident _ name _) => some name
+    | _ => none
+
+/-- with `SliceNode.Node` missing from the table, in `a[b:c]` only `b` and `c` are entered -/
+theorem incomplete_table_witness :
+    let t := Node.slice {} (.ident {} "a" false) (some (.ident {} "b" false)) (some (.ident {} "c" false))
+    (walk sliceNodeDropped Visitor.idle.logged 3 t ((), [])).map (fun r => enteredNames r.2.2) = some ["b", "c"] ∧
+    (walk refSlots Visitor.idle.logged 3 t ((), [])).map (fun r => enteredNames r.2.2) = some ["a", "b", "c"] := by
+  decide
 
 /-! ### non-vacuity -/
 
